@@ -867,6 +867,56 @@ pub fn expand_blend(toks: &[VTok], k: usize, pol: BlendPolicy) -> Vec<Tok> {
     out
 }
 
+/// Write the operands of every operator through the blend operator whether or not they vary, for an ItemVariationData with
+/// `k` regions, k = 0 included (CFF2 charstrings, blend: "for k regions, produces n interpolated result value(s) from
+/// n*(k + 1) operands"; with an ItemVariationData whose regionIndexCount is 0 that is `d1..dn n blend`: n + 1 operands are
+/// consumed and the n defaults are left). Every run of operands is cut into groups of at most `group` operands, one blend
+/// (n = group size) per group. With `alternate`, every second group of a run is written plain instead when none of its
+/// operands varies in the first k regions, so that blended and plain operands are interleaved below one operator.
+pub fn expand_blend_forced(toks: &[VTok], k: usize, group: usize, alternate: bool) -> Vec<Tok> {
+    assert!(group >= 1 && k <= MAXK);
+    let mut out = Vec::with_capacity(toks.len() * 3);
+    let mut run: Vec<V> = Vec::new();
+    let flush = |run: &mut Vec<V>, out: &mut Vec<Tok>| {
+        for (gi, g) in run.chunks(group).enumerate() {
+            let varies = g.iter().any(|v| v.dl[..k].iter().any(|d| *d != 0));
+            if alternate && gi % 2 == 1 && !varies {
+                for v in g {
+                    out.push(Tok::Num(v.d));
+                }
+                continue;
+            }
+            for v in g {
+                out.push(Tok::Num(v.d));
+            }
+            for v in g {
+                for r in 0..k {
+                    out.push(Tok::Num(v.dl[r]));
+                }
+            }
+            out.push(Tok::Num(int(g.len() as i32)));
+            out.push(Tok::Op(op::BLEND));
+        }
+        run.clear();
+    };
+    for t in toks {
+        match t {
+            VTok::Num(v) => run.push(*v),
+            VTok::Op(o) => {
+                flush(&mut run, &mut out);
+                out.push(Tok::Op(*o));
+            }
+            VTok::Esc(o) => {
+                flush(&mut run, &mut out);
+                out.push(Tok::Esc(*o));
+            }
+            VTok::Mask(b, n) => out.push(Tok::Mask(*b, *n)),
+        }
+    }
+    flush(&mut run, &mut out);
+    out
+}
+
 // ------------------------------------------------------------------------------------------------
 // number encodings and serialisation
 // ------------------------------------------------------------------------------------------------
